@@ -384,6 +384,28 @@ pub fn run_schedule(se: &mut Session, spec: &RunSpec) -> Vec<SimRef> {
     if let Some(mut r) = opened {
         exercise(se, &sim, &mut r, spec.extra_ids);
     }
+    // Embedded stream (one case in four, decided by the image itself): the same bytes behind an
+    // application prefix of P bytes, the reader handed over at position P with the absolute end
+    // as `size`. P is the size of a top-level box the reader skips (free / mdat / unknown) when
+    // there is one of at most 1 MiB, so that "position relative to the hand-over point" and
+    // "absolute position" differ by exactly one such box; otherwise 8.
+    if (spec.image.len() + spec.extra_ids.len()) % 4 == 0 && !spec.image.is_empty() {
+        let cands: Vec<usize> = crate::boxtree::walk(spec.image)
+            .iter()
+            .filter(|n| n.depth == 0 && n.size >= 8 && n.size <= (1 << 20) && !n.is(b"ftyp") && !n.is(b"moov") && !n.is(b"moof") && !n.is(b"emsg"))
+            .map(|n| n.size)
+            .collect();
+        let p = if cands.is_empty() { 8 } else { cands[spec.image.len() / 4 % cands.len()] };
+        let mut bytes = vec![0u8; p];
+        bytes.extend_from_slice(spec.image);
+        let end = bytes.len() as u64;
+        let esim = new_sim(bytes, se.cfg.chunking);
+        sims.push(esim.clone());
+        let fe = SimFile::at(&esim, p as u64);
+        if let Some(mut r) = se.call(&esim, "read_header(embedded)", true, || mp4::Mp4Reader::read_header(fe, end)) {
+            exercise(se, &esim, &mut r, spec.extra_ids);
+        }
+    }
     if let Some(l) = spec.split_at {
         if l <= spec.image.len() {
             let init_bytes: Vec<u8> = match spec.alt_init {
